@@ -216,7 +216,7 @@ theorem derivedTTL_le (leeway configured r : Int) (h : 0 < derivedTTL leeway con
     · exact Int.min_le_right _ _
 
 /-- with a known remaining lifetime `r`, the TTL never exceeds what is left after the leeway -/
-theorem cacheTTL_le_remaining (m : Mech) (cfg : Option Int) (now : Int) (exp : Option Int) (r : Int)
+theorem cacheTTL_le_remaining (m : Mech) (cfg : Option Int) (now : Int) (exp : Answer) (r : Int)
     (hr : remaining m cfg now exp = some r) :
     cacheTTL m cfg (some r) ≤ max 0 (r - m.leeway) := by
   by_cases hpos : 0 < cacheTTL m cfg (some r)
@@ -267,12 +267,12 @@ theorem validityLeeway_pos (m : Mech) (vl : Nat) : 0 < validityLeeway m vl := by
   · cases m <;> simp only <;> omega
   · omega
 
-theorem mayReuse_down (m : Mech) (cfg : Option Int) (vl : Nat) (it : Item (Option Int)) (t t' : Int)
+theorem mayReuse_down (m : Mech) (cfg : Option Int) (vl : Nat) (it : Item Answer) (t t' : Int)
     (hle : t' ≤ t) (h : mayReuse m cfg vl it t = true) : mayReuse m cfg vl it t' = true := by
   cases m <;> simp only [mayReuse] at h ⊢
   case jwtFinalizer => simp only [decide_eq_true_eq] at h ⊢; omega
   all_goals
-    cases he : it.ans with
+    cases he : it.ans.exp with
     | none => rfl
     | some e =>
       simp only [he, decide_eq_true_eq] at h ⊢
@@ -282,13 +282,15 @@ theorem mech_sound (m : Mech) (cfg : Option Int) (vl : Nat) :
     Sound (mechPolicy m cfg vl) (mayReuse m cfg vl) where
   down := mayReuse_down m cfg vl
   stored := by
-    intro now exp idx _ hpos
-    show mayReuse m cfg vl ⟨exp, now, idx⟩ (now + cacheTTL m cfg (remaining m cfg now exp)) = true
-    replace hpos : 0 < cacheTTL m cfg (remaining m cfg now exp) := hpos
+    intro now ans idx _ hpos
+    obtain ⟨exp, more⟩ := ans
+    show mayReuse m cfg vl ⟨⟨exp, more⟩, now, idx⟩
+      (now + cacheTTL m cfg (remaining m cfg now ⟨exp, more⟩)) = true
+    replace hpos : 0 < cacheTTL m cfg (remaining m cfg now ⟨exp, more⟩) := hpos
     have hvl := validityLeeway_pos m vl
     have hlee := leeway_nonneg m
     have htok := token_leeway_pos
-    cases hr : remaining m cfg now exp with
+    cases hr : remaining m cfg now ⟨exp, more⟩ with
     | none =>
       cases m <;> simp only [remaining] at hr <;> simp only [mayReuse]
       all_goals
@@ -296,7 +298,7 @@ theorem mech_sound (m : Mech) (cfg : Option Int) (vl : Nat) :
         | none => first | rfl | simp at hr
         | some e => simp at hr
     | some r =>
-      have hle := cacheTTL_le_remaining m cfg now exp r hr
+      have hle := cacheTTL_le_remaining m cfg now ⟨exp, more⟩ r hr
       rw [hr] at hpos
       cases m <;> simp only [remaining] at hr <;> simp only [mayReuse]
       case jwtFinalizer =>
@@ -331,8 +333,8 @@ theorem mech_ttl_off (m : Mech) (hm : m ≠ .jwtFinalizer) (proto : Option Int) 
   omega
 
 /-- reuse no later than the known expiry minus the mechanism's cache leeway -/
-def withinMargin (m : Mech) (it : Item (Option Int)) (t : Int) : Bool :=
-  match it.ans with
+def withinMargin (m : Mech) (it : Item Answer) (t : Int) : Bool :=
+  match it.ans.exp with
   | some e => decide (t + m.leeway ≤ e)
   | none => true
 
@@ -341,38 +343,39 @@ theorem margin_sound (m : Mech) (hm : m ≠ .jwtFinalizer) (hm' : m ≠ .remoteA
   down := by
     intro it t t' hle h
     simp only [withinMargin] at h ⊢
-    cases ha : it.ans with
+    cases ha : it.ans.exp with
     | none => rfl
     | some e => simp only [ha, decide_eq_true_eq] at h ⊢; omega
   stored := by
-    intro now exp idx _ hpos
-    replace hpos : 0 < cacheTTL m cfg (remaining m cfg now exp) := hpos
-    show withinMargin m ⟨exp, now, idx⟩ (now + cacheTTL m cfg (remaining m cfg now exp)) = true
+    intro now ans idx _ hpos
+    obtain ⟨exp, more⟩ := ans
+    replace hpos : 0 < cacheTTL m cfg (remaining m cfg now ⟨exp, more⟩) := hpos
+    show withinMargin m ⟨⟨exp, more⟩, now, idx⟩ (now + cacheTTL m cfg (remaining m cfg now ⟨exp, more⟩)) = true
     simp only [withinMargin]
     cases exp with
     | none => rfl
     | some e' =>
-      have hr : remaining m cfg now (some e') = some (e' - now) := by
+      have hr : remaining m cfg now ⟨some e', more⟩ = some (e' - now) := by
         cases m
         case jwtFinalizer => exact absurd rfl hm
         case remoteAuthz => exact absurd rfl hm'.1
         case contextualizer => exact absurd rfl hm'.2
         all_goals simp [remaining]
       rw [hr] at hpos ⊢
-      have := cacheTTL_le_remaining m cfg now (some e') (e' - now) hr
+      have := cacheTTL_le_remaining m cfg now ⟨some e', more⟩ (e' - now) hr
       simp only [decide_eq_true_eq]
       omega
 
 /-- keeping the cache leeway implies that the reuse is permitted, for every instance of the mechanism -/
 theorem mayReuse_of_withinMargin (m : Mech) (hm : m ≠ .jwtFinalizer) (cfg : Option Int) (vl : Nat)
-    (it : Item (Option Int)) (t : Int) (h : withinMargin m it t = true) : mayReuse m cfg vl it t = true := by
+    (it : Item Answer) (t : Int) (h : withinMargin m it t = true) : mayReuse m cfg vl it t = true := by
   have hvl := validityLeeway_pos m vl
   have hlee := leeway_nonneg m
   have htok := token_leeway_pos
   cases m <;> simp only [mayReuse, withinMargin] at h ⊢
   case jwtFinalizer => exact absurd rfl hm
   all_goals
-    cases ha : it.ans with
+    cases ha : it.ans.exp with
     | none => rfl
     | some e =>
       simp only [ha, decide_eq_true_eq] at h ⊢
